@@ -432,7 +432,7 @@ class netcdf_indexer:
             # Note: `netCDF4.Variable` natively supports orthogonal
             #       indexing; but `h5netcdf.File`, `h5py.File`, and
             #       `numpy.ndarray`, do not.
-            data = data[tuple(index0)]
+            data = self._variable_subspace(data, index0)
         else:
             # There are two or more list/1-d array indices, and the
             # variable does not natively support orthogonal indexing
@@ -461,7 +461,7 @@ class netcdf_indexer:
             ]
             n = axes_with_list_indices.pop(np.argmin(sizes))
             index1[n] = index[n]
-            data = data[tuple(index1)]
+            data = self._variable_subspace(data, index1)
 
             # 2) Apply the rest of the list/1-d array indices, in the
             #    order that gives the smallest result after each step.
@@ -482,6 +482,73 @@ class netcdf_indexer:
         index3 = [0 if isinstance(i, Integral) else slice(None) for i in index]
         if index3:
             data = data[tuple(index3)]
+
+        return data
+
+    def _variable_subspace(self, data, index):
+        """Get a subspace of the variable from its storage.
+
+        The index must contain only slices and at most one list/1-d
+        array of integers.
+
+        Variables that do not natively support orthogonal indexing,
+        and are not `numpy` arrays, (i.e. `h5netcdf.Variable` and
+        `h5py.Dataset`) only accept slices with positive steps, and
+        lists/1-d arrays that are strictly increasing. For these, the
+        same elements are read with an index that is acceptable, and
+        are then put into the requested order in memory.
+
+        .. versionadded:: (cfdm) NEXTVERSION
+
+        .. seealso:: `_index`
+
+        :Parameters:
+
+            data:
+                The variable.
+
+            index: sequence
+                The index, one element per dimension.
+
+        :Returns:
+
+            `numpy.ndarray`
+                The subspace of the variable.
+
+        """
+        if isinstance(data, np.ndarray) or getattr(
+            data, "__orthogonal_indexing__", False
+        ):
+            return data[tuple(index)]
+
+        index = list(index)
+        reorder = [slice(None)] * len(index)
+        reordered = False
+        for n, (i, size) in enumerate(zip(index, data.shape)):
+            if isinstance(i, slice):
+                if i.step is not None and i.step < 0:
+                    # Read the same elements with a positive step,
+                    # and reverse them afterwards
+                    r = range(*i.indices(size))
+                    if r:
+                        index[n] = slice(r[-1], r[0] + 1, -r.step)
+                    else:
+                        index[n] = slice(0, 0)
+
+                    reorder[n] = slice(None, None, -1)
+                    reordered = True
+            elif getattr(i, "shape", False) or isinstance(i, list):
+                i = np.asanyarray(i)
+                if i.size > 1 and (np.diff(i) <= 0).any():
+                    # Read each selected element once, in increasing
+                    # order, and restore the requested order and
+                    # repeats afterwards
+                    index[n], reorder[n] = np.unique(i, return_inverse=True)
+                    reordered = True
+
+        data = data[tuple(index)]
+        if reordered:
+            data = data[tuple(reorder)]
 
         return data
 
